@@ -26,7 +26,8 @@ scripts = json.load(open(sys.argv[1]))
 out = []
 for s in scripts:
     try:
-        out.append(hashlib.sha256(emit(parse(s)).encode()).hexdigest())
+        p = parse(s)
+        out.append(hashlib.sha256((emit(p) + "\0" + repr(p.target_port)).encode()).hexdigest())
     except Exception as e:
         out.append("EXC:" + type(e).__name__ + ":" + str(e)[:80])
 print(json.dumps(out))
@@ -38,7 +39,12 @@ def digest(s: str) -> str:
     from Reduino.transpile.parser import parse
 
     try:
-        return hashlib.sha256(emit(parse(s)).encode()).hexdigest()
+        p = parse(s)
+        first = emit(p)
+        again = emit(p)  # emitting the same Program twice must give the same text
+        if again != first:
+            return "EMIT-TWICE-DIFFERS:" + hashlib.sha256(first.encode()).hexdigest()[:16]
+        return hashlib.sha256((first + "\0" + repr(p.target_port)).encode()).hexdigest()
     except Exception as e:  # noqa: BLE001
         return "EXC:" + type(e).__name__ + ":" + str(e)[:80]
 
@@ -86,9 +92,15 @@ def main() -> int:
         sp = Path(td) / "scripts.json"
         sp.write_text(json.dumps(scripts))
         procs = {}
-        for hs in hash_seeds:
+        for n_env, hs in enumerate(hash_seeds):
             env = dict(os.environ)
             env["PYTHONHASHSEED"] = str(hs)
+            # the output is a function of the source text only: vary the process environment too
+            if n_env % 3 == 1:
+                env.update({"HOME": "/nonexistent-home", "USER": "someone", "LANG": "C", "TZ": "UTC+7"})
+            elif n_env % 3 == 2:
+                env.pop("HOME", None)
+                env.update({"LANG": "tr_TR.UTF-8", "LC_ALL": "C.UTF-8", "COLUMNS": "10"})
             procs[hs] = subprocess.Popen([PY, "-c", CHILD, str(sp), str(REPO_SRC)],
                                          stdout=subprocess.PIPE, stderr=subprocess.PIPE, text=True, env=env)
         results = {}
@@ -123,6 +135,8 @@ def main() -> int:
     rep.count("module_level_containers_watched", ncont)
     for i, s in enumerate(scripts):
         mine[i] = digest(s)
+        if mine[i].startswith("EMIT-TWICE-DIFFERS"):
+            rep.violation("emit() of the same Program object twice produced different text", {"script.py": s}, key="emit-twice")
         if module_state()[0] != st0:
             rep.violation("module-level state changed by a parse()/emit() call", {"script.py": s}, key="modstate")
             st0 = module_state()[0]
